@@ -101,7 +101,9 @@ def gen_stages(rng, paired):
         st.append(("strip", [x for sf in sufs for x in ("--strip-suffix", sf)]))
     r = rng.random()
     if r < 0.3:
-        st.append(("xy", ["-x", "pre_", "-y", "_suf"]))
+        # the text is added literally except for the documented {name} placeholder; braces that are not that placeholder stay
+        st.append(("xy", rng.choice([["-x", "pre_", "-y", "_suf"], ["-x", "p{{_", "-y", " }}s"], ["-y", " {{n}} }}"],
+                                     ["-x", "x{{}}_"]])))     # ({name} itself carries the adapter name across stages: not in chains)
     elif r < 0.5:
         st.append(("rename", ["--rename", rng.choice(["{id} renamed {comment}", "{id} h=[{header}]", "{id} {comment} was {header}"])]))
     if rng.random() < 0.3:
@@ -199,6 +201,15 @@ def check_trace(ctx, run, case, stages, paired, viol):
                 else:
                     continue
                 seq.append(cls)
+                if cls == "PrefixSuffixAdder" and o is not None:
+                    # the step itself, by its definition: the given texts are put around the name as they are
+                    xy = dict(stages).get("xy") or []
+                    px = xy[xy.index("-x") + 1] if "-x" in xy else ""
+                    sx = xy[xy.index("-y") + 1] if "-y" in xy else ""
+                    if "{name}" not in px + sx and o[0] != px + i[0] + sx:
+                        viol("prefix-suffix-step", f"read {key} side {side}: -x {px!r} -y {sx!r} turned the name {i[0]!r} into {o[0]!r}, expected {px + i[0] + sx!r}")
+                if cls == "SuffixRemover" and o is not None and not (o[0] == i[0] or (i[0].startswith(o[0]) and i[0][len(o[0]):] in (dict(stages).get("strip") or []))):
+                    viol("strip-suffix-step", f"read {key} side {side}: --strip-suffix turned {i[0]!r} into {o[0]!r}")
                 if prev is not None and (i[1], i[2]) != (prev[1], prev[2]):
                     viol("stage-input-not-previous-output", f"read {key} side {side}: {cls} received {i[1]!r} but the previous stage produced {prev[1]!r}")
                 prev = o
